@@ -1,10 +1,16 @@
 (* C06 Failover promotes the replica without changing slot ownership.
-   Statements only; proofs live in Proofs/BrokerFailover*.v.  Model: Model/Broker.v. *)
+   Statements only; proofs live in Proofs/BrokerFailover*.v.  Model: Model/Broker.v
+   (takeover_master, replace_failed_proxy, generate_new_free_proxy, chunk_nodes / cluster_nodes, to_slot_range, step). *)
 From UM Require Import Base.BytesDef Model.Ranges Model.Broker Proofs.BrokerBase
-  Proofs.BrokerFailoverStruct Proofs.BrokerFailoverEx.
+  Proofs.BrokerFailoverStruct Proofs.BrokerFailoverTakeover Proofs.BrokerFailoverView Proofs.BrokerFailoverStore
+  Proofs.BrokerFailoverReplace Proofs.BrokerFailoverAlloc Proofs.BrokerFailoverEx.
 
-(* ---- 1. structure of the four nodes of a chunk, for every chunk in every role position ----
-   peer_idx is the peer table 0<->3, 1<->2 of cluster_store_to_cluster. *)
+(* ---- 1. structure of the four nodes of a chunk, for EVERY chunk in EVERY role position (so also after any failover).
+   Node i lives on proxy position (2 <=? i); peer_idx is the peer table 0<->3, 1<->2 of cluster_store_to_cluster.
+   Exactly two masters and two replicas; the peer of a node is on the other proxy, has the opposite role, and the peer
+   records are mutually consistent; replicas carry no slots; the node owning part p's slots is node
+   part_node_index p role on proxy part_proxy_index p role: the index tables of cluster_store_to_cluster and of
+   to_slot_range (chunk_part_to_node_index / chunk_part_to_proxy_index) agree. *)
 Theorem C06_structure : forall chunks c ns, chunk_nodes chunks c = Some ns ->
   length ns = 4%nat
   /\ length (filter vn_master ns) = 2%nat
@@ -48,8 +54,8 @@ Check C06_structure : forall chunks c ns, chunk_nodes chunks c = Some ns ->
         /\ vn_slots n = (match ck_stable c part with Some r => [(r, VNone)] | None => [] end) ++ sl).
 Print Assumptions C06_structure.
 
-(* the same for every chunk of a cluster view: the node list is the concatenation of per-chunk quadruples,
-   each satisfying the statement above (chunk_structure is exactly the conclusion of C06_structure) *)
+(* lifted to all chunks of a cluster view: the node list is the concatenation of per-chunk quadruples, each satisfying
+   the statement above (chunk_structure chunks c ns is literally the conclusion of C06_structure) *)
 Theorem C06_structure_cluster : forall cl ns, cluster_nodes cl = Some ns ->
   exists per_chunk, ns = concat per_chunk
     /\ Forall2 (fun c cn => chunk_nodes (cl_chunks cl) c = Some cn /\ chunk_structure (cl_chunks cl) c cn)
@@ -61,7 +67,8 @@ Check C06_structure_cluster : forall cl ns, cluster_nodes cl = Some ns ->
                (cl_chunks cl) per_chunk.
 Print Assumptions C06_structure_cluster.
 
-(* the addresses in a migration tag are those of the master nodes owning the source / destination part *)
+(* the addresses in a migration tag are those of the master nodes currently owning the source / destination part
+   (so after a failover the tags name the promoted nodes) *)
 Theorem C06_tag_names_owner : forall chunks m rl tag,
   to_slot_range chunks m = Some (rl, tag) ->
   exists sc dc meta,
@@ -93,9 +100,365 @@ Check C06_tag_names_owner : forall chunks m rl tag,
                     /\ vn_master n = true /\ vn_addr n = vm_dst_node meta /\ vn_proxy n = vm_dst_proxy meta).
 Print Assumptions C06_tag_names_owner.
 
-(* non-vacuity: the mid-migration cluster after two failovers (chunk 0 in role FirstChunkMaster) has a node view *)
+(* ---- 2. takeover_master: ownership.
+   first_at chunks f i c pos: c is the chunk at index i, f is its proxy at position pos (false = 0, true = 1), and it is
+   the first chunk the loops of takeover_master stop at (no earlier chunk has f; proxy 0 is tested first).
+   new_role pos: SecondChunkMaster when proxy 0 failed, FirstChunkMaster when proxy 1 failed.
+   same_but_epoch m m': equal ranges, direction and source/destination positions (only mm_epoch may differ).
+   (b) slot content is unchanged in every chunk, node/proxy addresses too, only chunk i changes role;
+   (a) afterwards both parts of chunk i are owned on the partner proxy position; parts whose owner was on the failed
+   position move to the old owner's replication peer, the others keep their node; (c) every node index on the failed
+   position is a replica in the new role. *)
+Theorem C06_takeover_ownership : forall cl f e i c pos,
+  first_at (cl_chunks cl) f i c pos ->
+  length (cl_chunks (takeover_master cl f e)) = length (cl_chunks cl)
+  /\ (forall j cj, nth_error (cl_chunks cl) j = Some cj ->
+        exists cj', nth_error (cl_chunks (takeover_master cl f e)) j = Some cj'
+          /\ (forall p, ck_stable cj' p = ck_stable cj p)
+          /\ (forall p, Forall2 same_but_epoch (ck_mig cj p) (ck_mig cj' p))
+          /\ (forall k, ck_node cj' k = ck_node cj k) /\ (forall b, ck_proxy cj' b = ck_proxy cj b)
+          /\ ck_role cj' = (if Nat.eqb j i then new_role pos else ck_role cj))
+  /\ (forall p, part_proxy_index p (new_role pos) = negb pos)
+  /\ (forall p, part_proxy_index p (ck_role c) = pos ->
+        part_node_index p (new_role pos) = peer_idx (part_node_index p (ck_role c)))
+  /\ (forall p, part_proxy_index p (ck_role c) = negb pos ->
+        part_node_index p (new_role pos) = part_node_index p (ck_role c))
+  /\ (forall k, Nat.leb 2 k = pos -> role_replica (new_role pos) k = true).
+Proof. exact takeover_ownership. Qed.
+Check C06_takeover_ownership : forall cl f e i c pos,
+  first_at (cl_chunks cl) f i c pos ->
+  length (cl_chunks (takeover_master cl f e)) = length (cl_chunks cl)
+  /\ (forall j cj, nth_error (cl_chunks cl) j = Some cj ->
+        exists cj', nth_error (cl_chunks (takeover_master cl f e)) j = Some cj'
+          /\ (forall p, ck_stable cj' p = ck_stable cj p)
+          /\ (forall p, Forall2 same_but_epoch (ck_mig cj p) (ck_mig cj' p))
+          /\ (forall k, ck_node cj' k = ck_node cj k) /\ (forall b, ck_proxy cj' b = ck_proxy cj b)
+          /\ ck_role cj' = (if Nat.eqb j i then new_role pos else ck_role cj))
+  /\ (forall p, part_proxy_index p (new_role pos) = negb pos)
+  /\ (forall p, part_proxy_index p (ck_role c) = pos ->
+        part_node_index p (new_role pos) = peer_idx (part_node_index p (ck_role c)))
+  /\ (forall p, part_proxy_index p (ck_role c) = negb pos ->
+        part_node_index p (new_role pos) = part_node_index p (ck_role c))
+  /\ (forall k, Nat.leb 2 k = pos -> role_replica (new_role pos) k = true).
+Print Assumptions C06_takeover_ownership.
+
+(* the same in the node view (what get_cluster_by_name serves): the view of every chunk still exists; for every part the
+   owner is a master before and after and carries the same slot ranges with the same kind of tag (same_slot: stable /
+   migrating / importing); an owner on the failed proxy is replaced by its replication peer (address and proxy taken from
+   its own peer record), every other part keeps owner node and proxy; no node on the failed proxy of chunk i is master. *)
+Theorem C06_takeover_view : forall cl f e i c pos j cj ns,
+  first_at (cl_chunks cl) f i c pos ->
+  nth_error (cl_chunks cl) j = Some cj ->
+  chunk_nodes (cl_chunks cl) cj = Some ns ->
+  exists cj' ns',
+    nth_error (cl_chunks (takeover_master cl f e)) j = Some cj'
+    /\ chunk_nodes (cl_chunks (takeover_master cl f e)) cj' = Some ns'
+    /\ (forall p, exists old new,
+          nth_error ns (part_node_index p (ck_role cj)) = Some old /\ vn_master old = true
+          /\ nth_error ns' (part_node_index p (ck_role cj')) = Some new /\ vn_master new = true
+          /\ Forall2 same_slot (vn_slots old) (vn_slots new)
+          /\ (if Nat.eqb j i && Bool.eqb (part_proxy_index p (ck_role cj)) pos
+              then vn_proxy old = f /\ vn_addr new = vn_peer_node old /\ vn_proxy new = vn_peer_proxy old
+              else vn_addr new = vn_addr old /\ vn_proxy new = vn_proxy old))
+    /\ (j = i -> forall k n, nth_error ns' k = Some n -> Nat.leb 2 k = pos -> vn_proxy n = f /\ vn_master n = false).
+Proof. exact takeover_view. Qed.
+Check C06_takeover_view : forall cl f e i c pos j cj ns,
+  first_at (cl_chunks cl) f i c pos ->
+  nth_error (cl_chunks cl) j = Some cj ->
+  chunk_nodes (cl_chunks cl) cj = Some ns ->
+  exists cj' ns',
+    nth_error (cl_chunks (takeover_master cl f e)) j = Some cj'
+    /\ chunk_nodes (cl_chunks (takeover_master cl f e)) cj' = Some ns'
+    /\ (forall p, exists old new,
+          nth_error ns (part_node_index p (ck_role cj)) = Some old /\ vn_master old = true
+          /\ nth_error ns' (part_node_index p (ck_role cj')) = Some new /\ vn_master new = true
+          /\ Forall2 same_slot (vn_slots old) (vn_slots new)
+          /\ (if Nat.eqb j i && Bool.eqb (part_proxy_index p (ck_role cj)) pos
+              then vn_proxy old = f /\ vn_addr new = vn_peer_node old /\ vn_proxy new = vn_peer_proxy old
+              else vn_addr new = vn_addr old /\ vn_proxy new = vn_proxy old))
+    /\ (j = i -> forall k n, nth_error ns' k = Some n -> Nat.leb 2 k = pos -> vn_proxy n = f /\ vn_master n = false).
+Print Assumptions C06_takeover_view.
+
+(* the same across the WHOLE of replace_failed_proxy (takeover_master, then - unordered mode with a spare proxy - the loop
+   that puts the replacement proxy and its two nodes in place of the failed one), whatever its outcome: slot content of
+   every chunk unchanged; the owner node / proxy of every part (the addresses C06_structure and C06_tag_names_owner show
+   in the views) is the old owner's replication peer on the partner proxy for the parts that were on the failed proxy,
+   and the old owner for every other part; chunks other than the failing one keep all addresses *)
+Theorem C06_replace_ownership : forall s f ch fr name cl i c pos,
+  alookup f (st_proxies s) = Some fr -> pr_cluster fr = Some name -> alookup name (st_clusters s) = Some cl ->
+  first_at (cl_chunks cl) f i c pos ->
+  exists cl', alookup name (st_clusters (fst (replace_failed_proxy s f ch))) = Some cl'
+    /\ length (cl_chunks cl') = length (cl_chunks cl)
+    /\ forall j cj, nth_error (cl_chunks cl) j = Some cj ->
+         exists cj', nth_error (cl_chunks cl') j = Some cj'
+           /\ (forall p, ck_stable cj' p = ck_stable cj p)
+           /\ (forall p, Forall2 same_but_epoch (ck_mig cj p) (ck_mig cj' p))
+           /\ ck_role cj' = (if Nat.eqb j i then new_role pos else ck_role cj)
+           /\ (forall p,
+                 ck_node cj' (part_node_index p (ck_role cj'))
+                 = (if Nat.eqb j i && Bool.eqb (part_proxy_index p (ck_role cj)) pos
+                    then ck_node cj (peer_idx (part_node_index p (ck_role cj)))
+                    else ck_node cj (part_node_index p (ck_role cj)))
+                 /\ ck_proxy cj' (part_proxy_index p (ck_role cj'))
+                    = (if Nat.eqb j i && Bool.eqb (part_proxy_index p (ck_role cj)) pos
+                       then ck_proxy cj (negb pos)
+                       else ck_proxy cj (part_proxy_index p (ck_role cj))))
+           /\ (j <> i -> (forall k, ck_node cj' k = ck_node cj k) /\ (forall b, ck_proxy cj' b = ck_proxy cj b)).
+Proof. exact replace_ownership. Qed.
+Check C06_replace_ownership : forall s f ch fr name cl i c pos,
+  alookup f (st_proxies s) = Some fr -> pr_cluster fr = Some name -> alookup name (st_clusters s) = Some cl ->
+  first_at (cl_chunks cl) f i c pos ->
+  exists cl', alookup name (st_clusters (fst (replace_failed_proxy s f ch))) = Some cl'
+    /\ length (cl_chunks cl') = length (cl_chunks cl)
+    /\ forall j cj, nth_error (cl_chunks cl) j = Some cj ->
+         exists cj', nth_error (cl_chunks cl') j = Some cj'
+           /\ (forall p, ck_stable cj' p = ck_stable cj p)
+           /\ (forall p, Forall2 same_but_epoch (ck_mig cj p) (ck_mig cj' p))
+           /\ ck_role cj' = (if Nat.eqb j i then new_role pos else ck_role cj)
+           /\ (forall p,
+                 ck_node cj' (part_node_index p (ck_role cj'))
+                 = (if Nat.eqb j i && Bool.eqb (part_proxy_index p (ck_role cj)) pos
+                    then ck_node cj (peer_idx (part_node_index p (ck_role cj)))
+                    else ck_node cj (part_node_index p (ck_role cj)))
+                 /\ ck_proxy cj' (part_proxy_index p (ck_role cj'))
+                    = (if Nat.eqb j i && Bool.eqb (part_proxy_index p (ck_role cj)) pos
+                       then ck_proxy cj (negb pos)
+                       else ck_proxy cj (part_proxy_index p (ck_role cj))))
+           /\ (j <> i -> (forall k, ck_node cj' k = ck_node cj k) /\ (forall b, ck_proxy cj' b = ck_proxy cj b)).
+Print Assumptions C06_replace_ownership.
+
+(* ---- 3. takeover_master: re-issue of migrations (the early return `role already new_role pos` is excluded here; then
+   nothing changes, see C06_idempotent).
+   moved_positions c pos = source and destination positions of all entries of the parts of chunk i whose master was on the
+   failed proxy (the Rust peer_position set).  (1) exact effect: every entry list of every chunk is mapped through
+   reepoch_peers (moved_positions c pos) e, i.e. an entry gets epoch e iff its source or destination position is in that
+   set, otherwise it is untouched; (2) all entries of a moved part of chunk i carry epoch e; (3) if the chunk already had
+   both masters on the failing proxy (role new_role (negb pos): FirstChunkMaster and proxy 0 fails, or SecondChunkMaster
+   and proxy 1 fails - the case fixed in /repo) the entries of BOTH parts carry epoch e; (4) if entries are well placed
+   with twins (mig_wf: out-entry in the list of its source position, in-entry in the list of its destination position,
+   each with a twin of the other direction with equal ranges and meta at the other end - what assign_dst_slots builds)
+   then EVERY entry anywhere whose source or destination is a moved part carries epoch e; (5) mig_wf is preserved, in
+   particular out-entry and in-entry still carry equal metas. *)
+Theorem C06_reissue : forall cl f e i c pos,
+  first_at (cl_chunks cl) f i c pos -> ck_role c <> new_role pos ->
+  (forall j cj, nth_error (cl_chunks cl) j = Some cj ->
+     exists cj', nth_error (cl_chunks (takeover_master cl f e)) j = Some cj'
+       /\ forall p, ck_mig cj' p = map (reepoch_peers (moved_positions c pos) e) (ck_mig cj p))
+  /\ (forall c' p m, nth_error (cl_chunks (takeover_master cl f e)) i = Some c' ->
+        part_proxy_index p (ck_role c) = pos -> In m (ck_mig c' p) -> mm_epoch (ms_meta m) = e)
+  /\ (ck_role c = new_role (negb pos) ->
+      forall c' p m, nth_error (cl_chunks (takeover_master cl f e)) i = Some c' -> In m (ck_mig c' p) ->
+                     mm_epoch (ms_meta m) = e)
+  /\ (mig_wf (cl_chunks cl) ->
+      forall j cj' p m' q, nth_error (cl_chunks (takeover_master cl f e)) j = Some cj' -> In m' (ck_mig cj' p) ->
+        part_proxy_index q (ck_role c) = pos -> (src_pos m' = (i, q) \/ dst_pos m' = (i, q)) ->
+        mm_epoch (ms_meta m') = e)
+  /\ (mig_wf (cl_chunks cl) -> mig_wf (cl_chunks (takeover_master cl f e))).
+Proof. exact takeover_reissue. Qed.
+Check C06_reissue : forall cl f e i c pos,
+  first_at (cl_chunks cl) f i c pos -> ck_role c <> new_role pos ->
+  (forall j cj, nth_error (cl_chunks cl) j = Some cj ->
+     exists cj', nth_error (cl_chunks (takeover_master cl f e)) j = Some cj'
+       /\ forall p, ck_mig cj' p = map (reepoch_peers (moved_positions c pos) e) (ck_mig cj p))
+  /\ (forall c' p m, nth_error (cl_chunks (takeover_master cl f e)) i = Some c' ->
+        part_proxy_index p (ck_role c) = pos -> In m (ck_mig c' p) -> mm_epoch (ms_meta m) = e)
+  /\ (ck_role c = new_role (negb pos) ->
+      forall c' p m, nth_error (cl_chunks (takeover_master cl f e)) i = Some c' -> In m (ck_mig c' p) ->
+                     mm_epoch (ms_meta m) = e)
+  /\ (mig_wf (cl_chunks cl) ->
+      forall j cj' p m' q, nth_error (cl_chunks (takeover_master cl f e)) j = Some cj' -> In m' (ck_mig cj' p) ->
+        part_proxy_index q (ck_role c) = pos -> (src_pos m' = (i, q) \/ dst_pos m' = (i, q)) ->
+        mm_epoch (ms_meta m') = e)
+  /\ (mig_wf (cl_chunks cl) -> mig_wf (cl_chunks (takeover_master cl f e))).
+Print Assumptions C06_reissue.
+
+(* ---- 4. repeated calls.  A second takeover for the same chunk proxy takes the early return: nothing changes, not even
+   the cluster epoch. *)
+Theorem C06_idempotent : forall cl f e e2 i c pos,
+  first_at (cl_chunks cl) f i c pos ->
+  takeover_master (takeover_master cl f e) f e2 = takeover_master cl f e.
+Proof. exact takeover_idempotent. Qed.
+Check C06_idempotent : forall cl f e e2 i c pos,
+  first_at (cl_chunks cl) f i c pos ->
+  takeover_master (takeover_master cl f e) f e2 = takeover_master cl f e.
+Print Assumptions C06_idempotent.
+
+(* after a replacement the failed proxy is free and marked failed; calling replace_failed_proxy again for it changes no
+   cluster at all *)
+Theorem C06_idempotent_replace : forall s f ch s' r,
+  replace_failed_proxy s f ch = (s', Done (Some r)) ->
+  forall ch2, st_clusters (fst (replace_failed_proxy s' f ch2)) = st_clusters s'
+              /\ snd (replace_failed_proxy s' f ch2) = Done None.
+Proof. exact replace_again_after_replacement. Qed.
+Check C06_idempotent_replace : forall s f ch s' r,
+  replace_failed_proxy s f ch = (s', Done (Some r)) ->
+  forall ch2, st_clusters (fst (replace_failed_proxy s' f ch2)) = st_clusters s'
+              /\ snd (replace_failed_proxy s' f ch2) = Done None.
+Print Assumptions C06_idempotent_replace.
+
+(* whatever the first call did (replacement, ordered mode, no spare proxy, error): a second call for the same address
+   leaves the roles and the migration entries (hence migration epochs) of every cluster unchanged
+   (same_roles_migs a b: map ck_role equal and, for both parts, map ck_mig equal) *)
+Theorem C06_idempotent_replace_general : forall s f ch ch2 n cl',
+  alookup n (st_clusters (fst (replace_failed_proxy s f ch))) = Some cl' ->
+  exists cl'', alookup n (st_clusters (fst (replace_failed_proxy (fst (replace_failed_proxy s f ch)) f ch2))) = Some cl''
+               /\ same_roles_migs cl'' cl' .
+Proof. exact replace_twice. Qed.
+Check C06_idempotent_replace_general : forall s f ch ch2 n cl',
+  alookup n (st_clusters (fst (replace_failed_proxy s f ch))) = Some cl' ->
+  exists cl'', alookup n (st_clusters (fst (replace_failed_proxy (fst (replace_failed_proxy s f ch)) f ch2))) = Some cl''
+               /\ same_roles_migs cl'' cl' .
+Print Assumptions C06_idempotent_replace_general.
+
+(* ---- 5. for every operation (ORestore replaces the whole store by a snapshot and is excluded): a proxy that is in some
+   cluster afterwards was in some cluster before, or was free before: no cluster, not in st_failed, no entry in
+   st_failures. *)
+Theorem C06_never_allocate_failed : forall s o, (forall snap, o <> ORestore snap) ->
+  forall n cl' a, In (n, cl') (st_clusters (fst (step s o))) -> In a (cluster_proxies cl') ->
+    (exists n0 cl, In (n0, cl) (st_clusters s) /\ In a (cluster_proxies cl))
+    \/ (exists ra, In (a, ra) (st_proxies s) /\ is_free s (a, ra) = true /\ pr_cluster ra = None
+                   /\ smem a (st_failed s) = false /\ amem a (st_failures s) = false).
+Proof. exact never_allocate_failed. Qed.
+Check C06_never_allocate_failed : forall s o, (forall snap, o <> ORestore snap) ->
+  forall n cl' a, In (n, cl') (st_clusters (fst (step s o))) -> In a (cluster_proxies cl') ->
+    (exists n0 cl, In (n0, cl) (st_clusters s) /\ In a (cluster_proxies cl))
+    \/ (exists ra, In (a, ra) (st_proxies s) /\ is_free s (a, ra) = true /\ pr_cluster ra = None
+                   /\ smem a (st_failed s) = false /\ amem a (st_failures s) = false).
+Print Assumptions C06_never_allocate_failed.
+
+(* the allocators themselves: chunk generation (unordered mode: alloc_one's validity test of the implementation's choice;
+   ordered mode: free_proxies) and generate_new_free_proxy only return free proxies *)
+Theorem C06_allocators_free : forall s,
+  (forall k fi choices pairs a b, gen_chunks s k fi choices = Done pairs -> In (a, b) pairs ->
+     (exists ra, In (a, ra) (st_proxies s) /\ is_free s (a, ra) = true)
+     /\ (exists rb, In (b, rb) (st_proxies s) /\ is_free s (b, rb) = true))
+  /\ (forall f ch r, generate_new_free_proxy s f ch = Done r ->
+        exists rr, alookup r (st_proxies s) = Some rr /\ is_free s (r, rr) = true).
+Proof. exact allocators_free. Qed.
+Check C06_allocators_free : forall s,
+  (forall k fi choices pairs a b, gen_chunks s k fi choices = Done pairs -> In (a, b) pairs ->
+     (exists ra, In (a, ra) (st_proxies s) /\ is_free s (a, ra) = true)
+     /\ (exists rb, In (b, rb) (st_proxies s) /\ is_free s (b, rb) = true))
+  /\ (forall f ch r, generate_new_free_proxy s f ch = Done r ->
+        exists rr, alookup r (st_proxies s) = Some rr /\ is_free s (r, rr) = true).
+Print Assumptions C06_allocators_free.
+
+(* ---- 6. the new migration epoch is newer.  epochs_le chunks E: every stored migration epoch is <= E.
+   If that holds for some E < e then after takeover_master with epoch e every entry is either untouched or carries
+   epoch e, strictly greater than its old epoch; and epochs_le holds for e afterwards. *)
+Theorem C06_epoch_newer : forall cl f e E,
+  epochs_le (cl_chunks cl) E -> E < e ->
+  epochs_le (cl_chunks (takeover_master cl f e)) e
+  /\ (forall j cj cj' p, nth_error (cl_chunks cl) j = Some cj ->
+        nth_error (cl_chunks (takeover_master cl f e)) j = Some cj' ->
+        Forall2 (fun m m' => m' = m \/ (mm_epoch (ms_meta m') = e /\ mm_epoch (ms_meta m) < mm_epoch (ms_meta m')))
+                (ck_mig cj p) (ck_mig cj' p)).
+Proof. exact takeover_epochs. Qed.
+Check C06_epoch_newer : forall cl f e E,
+  epochs_le (cl_chunks cl) E -> E < e ->
+  epochs_le (cl_chunks (takeover_master cl f e)) e
+  /\ (forall j cj cj' p, nth_error (cl_chunks cl) j = Some cj ->
+        nth_error (cl_chunks (takeover_master cl f e)) j = Some cj' ->
+        Forall2 (fun m m' => m' = m \/ (mm_epoch (ms_meta m') = e /\ mm_epoch (ms_meta m) < mm_epoch (ms_meta m')))
+                (ck_mig cj p) (ck_mig cj' p)).
+Print Assumptions C06_epoch_newer.
+
+(* replace_failed_proxy runs takeover_master with epoch st_epoch s + 1 (the freshly bumped global epoch) *)
+Theorem C06_epoch_newer_replace : forall s f ch fr name cl,
+  alookup f (st_proxies s) = Some fr -> pr_cluster fr = Some name -> alookup name (st_clusters s) = Some cl ->
+  exists cl', alookup name (st_clusters (fst (replace_failed_proxy s f ch))) = Some cl'
+    /\ same_roles_migs cl' (takeover_master cl f (st_epoch s + 1))
+    /\ st_epoch s + 1 <= st_epoch (fst (replace_failed_proxy s f ch)).
+Proof. exact replace_reissue_epoch. Qed.
+Check C06_epoch_newer_replace : forall s f ch fr name cl,
+  alookup f (st_proxies s) = Some fr -> pr_cluster fr = Some name -> alookup name (st_clusters s) = Some cl ->
+  exists cl', alookup name (st_clusters (fst (replace_failed_proxy s f ch))) = Some cl'
+    /\ same_roles_migs cl' (takeover_master cl f (st_epoch s + 1))
+    /\ st_epoch s + 1 <= st_epoch (fst (replace_failed_proxy s f ch)).
+Print Assumptions C06_epoch_newer_replace.
+
+(* the invariant `every migration epoch of every cluster <= global epoch` (store_epochs_le) is preserved by
+   replace_failed_proxy; under it the re-issued epoch st_epoch s + 1 is strictly newer than every epoch present *)
+Theorem C06_epoch_invariant_preserved : forall s f ch,
+  store_epochs_le s -> store_epochs_le (fst (replace_failed_proxy s f ch)).
+Proof. exact replace_preserves_epochs_le. Qed.
+Check C06_epoch_invariant_preserved : forall s f ch,
+  store_epochs_le s -> store_epochs_le (fst (replace_failed_proxy s f ch)).
+Print Assumptions C06_epoch_invariant_preserved.
+
+(* ---------- non-vacuity: concrete mid-migration stores (Proofs/BrokerFailoverEx.v) ----------
+   ex_store  = run (init_store false) ex_ops: cluster 1, chunk 0 = proxies 5/4 with BOTH parts migrating out to
+               chunk 1 = proxies 8/3 (migration epoch 13);
+   ex_store1 = after OReplaceFailed 5 (replaced by 7): chunk 0 in role SecondChunkMaster;
+   ex_store2 = after OReplaceFailed 4 as well (replaced by 6): SecondChunkMaster -> FirstChunkMaster, both parts move. *)
 Example C06_structure_example :
   (exists ns, cluster_nodes (ex_cluster ex_store2) = Some ns /\ length ns = 8%nat)
   /\ map ck_role (cl_chunks (ex_cluster ex_store2)) = [RFirst; RNormal]
   /\ map chunk_is_migrating (cl_chunks (ex_cluster ex_store2)) = [true; true].
 Proof. vm_compute. split; [eexists; split; reflexivity|split; reflexivity]. Qed.
+
+(* hypotheses of C06_takeover_ownership / C06_takeover_view / C06_idempotent: proxy 5 is proxy 0 of chunk 0 of ex_store,
+   proxy 3 is proxy 1 of chunk 1 (not the first chunk); the node view exists *)
+Example C06_takeover_example :
+  (exists c, first_at (cl_chunks (ex_cluster ex_store)) 5 0 c false)
+  /\ (exists c, first_at (cl_chunks (ex_cluster ex_store)) 3 1 c true)
+  /\ (exists ns, option_map (chunk_nodes (cl_chunks (ex_cluster ex_store))) (nth_error (cl_chunks (ex_cluster ex_store)) 0)
+                 = Some (Some ns))
+  /\ map ck_role (cl_chunks (takeover_master (ex_cluster ex_store) 5 14)) = [RSecond; RNormal].
+Proof.
+  split; [apply first_at_b_sound; vm_compute; reflexivity|].
+  split; [apply first_at_b_sound; vm_compute; reflexivity|].
+  split; [vm_compute; eexists; reflexivity|vm_compute; reflexivity].
+Qed.
+
+(* hypotheses of C06_reissue in the both-parts case: in ex_store1 chunk 0 has role SecondChunkMaster = new_role (negb true)
+   and proxy 4 (position 1) fails; entries are well placed with twins; afterwards all four entries carry the new epoch *)
+Example C06_reissue_example :
+  (exists c, first_at (cl_chunks (ex_cluster ex_store1)) 4 0 c true /\ ck_role c = new_role (negb true)
+             /\ ck_role c <> new_role true)
+  /\ mig_wf (cl_chunks (ex_cluster ex_store1))
+  /\ map (fun c => (map (fun m => mm_epoch (ms_meta m)) (ck_mig0 c), map (fun m => mm_epoch (ms_meta m)) (ck_mig1 c)))
+         (cl_chunks (ex_cluster ex_store1)) = [([14], [13]); ([14], [13])]
+  /\ map (fun c => (map (fun m => mm_epoch (ms_meta m)) (ck_mig0 c), map (fun m => mm_epoch (ms_meta m)) (ck_mig1 c)))
+         (cl_chunks (takeover_master (ex_cluster ex_store1) 4 16)) = [([16], [16]); ([16], [16])].
+Proof.
+  split.
+  { destruct (first_at_b_sound (cl_chunks (ex_cluster ex_store1)) 4 0 true eq_refl) as (c & Hc).
+    exists c. split; [exact Hc|]. destruct Hc as (Hn & _). vm_compute in Hn. inversion Hn; subst c.
+    split; [reflexivity|discriminate]. }
+  split; [apply mig_wf_b_sound; vm_compute; reflexivity|].
+  split; vm_compute; reflexivity.
+Qed.
+
+(* repeated failover calls on the concrete stores: a second call for proxy 5 changes no cluster *)
+Example C06_idempotent_example :
+  snd (step ex_store (OReplaceFailed 5 (Some 7))) = RRepl (Some 7)
+  /\ st_clusters (run ex_store [OReplaceFailed 5 (Some 7); OReplaceFailed 5 (Some 1)]) = st_clusters ex_store1
+  /\ takeover_master (takeover_master (ex_cluster ex_store) 5 14) 5 15 = takeover_master (ex_cluster ex_store) 5 14.
+Proof. vm_compute. repeat split. Qed.
+
+(* allocation: proxy 7 is newly placed by the failover and was free; the failed proxy 5 is refused as a replacement later *)
+Example C06_never_allocate_failed_example :
+  In 7 (cluster_proxies (ex_cluster ex_store1)) /\ ~ In 7 (cluster_proxies (ex_cluster ex_store))
+  /\ (exists ra, alookup 7 (st_proxies ex_store) = Some ra /\ is_free ex_store (7, ra) = true)
+  /\ smem 5 (st_failed ex_store1) = true
+  /\ snd (step ex_store1 (OReplaceFailed 4 (Some 5))) = RErr E_BadChoice.
+Proof.
+  split; [vm_compute; tauto|].
+  split; [vm_compute; intros H; repeat (destruct H as [H|H]; [discriminate|]); exact H|].
+  split; [eexists; split; vm_compute; reflexivity|].
+  split; vm_compute; reflexivity.
+Qed.
+
+(* the epoch invariant holds in the concrete stores and the failover uses a strictly newer epoch (13 -> 14 -> 16) *)
+Example C06_epoch_example :
+  store_epochs_le ex_store /\ store_epochs_le ex_store1
+  /\ st_epoch ex_store = 13 /\ epochs_le (cl_chunks (ex_cluster ex_store)) 13
+  /\ exists fr, alookup 5 (st_proxies ex_store) = Some fr /\ pr_cluster fr = Some 1.
+Proof.
+  split; [eapply store_epochs_le_single; vm_compute; reflexivity|].
+  split; [eapply store_epochs_le_single; vm_compute; reflexivity|].
+  split; [vm_compute; reflexivity|].
+  split; [apply epochs_le_b_sound; vm_compute; reflexivity|].
+  eexists; split; vm_compute; reflexivity.
+Qed.
